@@ -41,12 +41,15 @@ PInit == /\ \E c \in 1..MaxCap : \E k \in 0..c :
 Live(o) == st[o] = "live"
 Full(o) == Len(buf[o]) = cap[o]
 
-PushBack(o) == /\ Live(o) /\ (Full(o) => Overwrite)
-               /\ buf' = [buf EXCEPT ![o] = IF Full(o) THEN Append(Tail(@), Fresh) ELSE Append(@, Fresh)]
-               /\ ret' = 0 /\ UNCHANGED <<cap, st, limbo>>
-PushFront(o) == /\ Live(o) /\ (Full(o) => Overwrite)
-                /\ buf' = [buf EXCEPT ![o] = IF Full(o) THEN <<Fresh>> \o SubSeq(@, 1, Len(@) - 1) ELSE <<Fresh>> \o @]
-                /\ ret' = 0 /\ UNCHANGED <<cap, st, limbo>>
+\* insertion into a full overwriting buffer discards the element at the opposite end
+PushBackV(o, v) == /\ Live(o) /\ (Full(o) => Overwrite) /\ v \notin Used
+                   /\ buf' = [buf EXCEPT ![o] = IF Full(o) THEN Append(Tail(@), v) ELSE Append(@, v)]
+                   /\ ret' = 0 /\ UNCHANGED <<cap, st, limbo>>
+PushFrontV(o, v) == /\ Live(o) /\ (Full(o) => Overwrite) /\ v \notin Used
+                    /\ buf' = [buf EXCEPT ![o] = IF Full(o) THEN <<v>> \o SubSeq(@, 1, Len(@) - 1) ELSE <<v>> \o @]
+                    /\ ret' = 0 /\ UNCHANGED <<cap, st, limbo>>
+PushBack(o) == PushBackV(o, Fresh)
+PushFront(o) == PushFrontV(o, Fresh)
 PopBack(o) == /\ Live(o) /\ buf[o] # <<>>
               /\ ret' = buf[o][Len(buf[o])]
               /\ buf' = [buf EXCEPT ![o] = SubSeq(@, 1, Len(@) - 1)]
@@ -55,7 +58,7 @@ PopFront(o) == /\ Live(o) /\ buf[o] # <<>>
                /\ ret' = buf[o][1]
                /\ buf' = [buf EXCEPT ![o] = Tail(@)]
                /\ UNCHANGED <<cap, st, limbo>>
-Resize(o, n) == /\ Live(o) /\ n \in 1..MaxCap
+Resize(o, n) == /\ Live(o) /\ n >= 1
                 /\ buf' = [buf EXCEPT ![o] = SubSeq(@, 1, Min(Len(@), n))]
                 /\ cap' = [cap EXCEPT ![o] = n]
                 /\ ret' = 0 /\ UNCHANGED <<st, limbo>>
